@@ -263,11 +263,29 @@ func faultWorld(mode string, big bool) *world {
 // the registration of the wake-up eventfd or of a listener failing). Run must report the failure
 // (or succeed when nothing was injected), without panic, without closing descriptors it does
 // not own and without leaving descriptors or the socket file behind.
-func startupFaultWorld(loops int, reuseport bool) *world {
+func startupFaultWorld(loops int, reuseport bool, kind ...string) *world {
 	w := newWorld("startup-fault")
 	w.opts = []Option{WithNumEventLoop(loops)}
+	if len(kind) > 0 {
+		// the listener itself: socket(2), bind(2) and listen(2) of a TCP or UDP address can fail too
+		// (EMFILE, EADDRINUSE); whatever was created before the failure has to be closed again
+		a := &unix.SockaddrInet4{Addr: [4]byte{127, 0, 0, 1}}
+		switch kind[0] {
+		case "tcp":
+			w.addr = fmt.Sprintf("tcp://127.0.0.1:%d", freeTCPPort(a, false))
+			w.opts = append(w.opts, WithReuseAddr(true))
+		case "udp":
+			w.addr = fmt.Sprintf("udp://127.0.0.1:%d", udpPort()+9)
+		}
+	}
 	w.deviate = func(site string, fd int, n int) []string {
 		switch site {
+		case "socket":
+			return []string{"EMFILE"}
+		case "bind", "listen":
+			if len(kind) > 0 { // an address that is in use: TCP/UDP only (gnet unlinks a unix path before binding it)
+				return []string{"EADDRINUSE"}
+			}
 		case "epoll_create1", "eventfd":
 			return []string{"EMFILE"}
 		case "epoll_ctl_add":
@@ -491,6 +509,12 @@ func faultSchedConfigs() ([]sched.Config, func(string) *sched.Config) {
 		name := "client-enroll-fault/" + map[bool]string{false: "LT", true: "ET"}[et]
 		out = append(out, sched.Config{Property: "C18", Name: name, Bounds: []sched.Bound{{PB: 0, DB: 0}, {PB: 0, DB: 1}, {PB: 1, DB: 1}}, Horizon: 40000, Deadline: seqmc.Deadline(), DelayBounded: true,
 			New: func() sched.Scenario { return clientEnrollFaultWorld(et) }})
+	}
+	for _, kind := range []string{"tcp", "udp"} {
+		kind := kind
+		name := "startup-fault/" + kind
+		out = append(out, sched.Config{Property: "C18", Name: name, Bounds: []sched.Bound{{PB: 0, DB: 0}, {PB: 0, DB: 1}}, Horizon: 40000, Deadline: seqmc.Deadline(), DelayBounded: true,
+			New: func() sched.Scenario { w := startupFaultWorld(1, false, kind); w.name = name; return w }})
 	}
 	for _, loops := range []int{1, 2} {
 		loops := loops
